@@ -411,6 +411,10 @@ fn string_from_utf8''')]},
      'edits': [(VM, "        if self.active_fiber().exc_handlers.len() < self.active_fiber().return_handlers {", "        {")]},
     {'name': 'X19 the test reads the frame depth instead of what JumpFinally recorded', 'prop': 'C08', 'expect': 'X19 / the test reads what JumpFinally recorded',
      'edits': [(VM, "        if self.active_fiber().exc_handlers.len() < self.active_fiber().return_handlers {", "        if self.active_fiber().exc_handlers.len() < self.active_fiber().frames.len() {")]},
+    {'name': 'U9 hex escape digits no longer tested before from_str_radix', 'prop': 'C13', 'expect': 'U9 / scanner::Scanner::read_escaped_bytes',
+     'edits': [(SCAN, "            if !read_chars.chars().all(|c| c.is_ascii_hexdigit()) {\n                return Err(());\n            }\n", "")]},
+    {'name': 'U9 hex escape digits tested for being printable only', 'prop': 'C13', 'expect': 'U9 / scanner::Scanner::read_escaped_bytes',
+     'edits': [(SCAN, "            if !read_chars.chars().all(|c| c.is_ascii_hexdigit()) {", "            if !read_chars.chars().all(|c| c.is_ascii_graphic()) {")]},
     # ---- C03 ----------------------------------------------------------------------------------------
     {'name': 'T1 parse returns the function when only warnings-like errors were recorded', 'prop': 'C03', 'expect': 'T1 / parse: Ok only behind',
      'edits': [(COMP, "        let had_error = !self.errors.borrow().is_empty();\n        if had_error {", "        let had_error = self.errors.borrow().len() > 1;\n        if had_error {")]},
